@@ -118,7 +118,11 @@ def onThreshold (x : Rat) : Bool := switchThresholds.contains x
 def reexportOK (b : Atom) (l1 l2 : Str) : Bool :=
   let coord (x : Rat) (a c : Nat) : Bool :=
     coordOK x (rawCols l2 a c) && (rawCols l1 a c == rawCols l2 a c || onThreshold x || x == 0)
-  rawCols l1 1 30 == rawCols l2 1 30 && rawCols l1 55 80 == rawCols l2 55 80 &&
+  -- occupancy / B-factor: same text, or the value read back is zero (again: a negative zero, printed "-0.00" by
+  -- CPython, is outside this model) and the field still denotes it
+  let fixed2 (v : Rat) (a c : Nat) : Bool :=
+    rawCols l1 a c == rawCols l2 a c || (v == 0 && fixed2OK v (rawCols l2 a c))
+  rawCols l1 1 30 == rawCols l2 1 30 && fixed2 b.occ 55 60 && fixed2 b.temp 61 66 && rawCols l1 67 80 == rawCols l2 67 80 &&
   coord b.x 31 38 && coord b.y 39 46 && coord b.z 47 54
 
 /-- values for which the property promises a well-formed line -/
